@@ -170,6 +170,8 @@ void sim_mark_nontrivial(void);
 /* simulated clock, 27 MHz */
 uint64_t sim_now(void);
 void sim_advance(uint64_t ticks);
+/** rewinds the clock (only between two executions of one history, when no timer is left) */
+void sim_set_now(uint64_t now);
 
 /* simulated event descriptors (also reachable through the --wrap'ed libc
  * symbols eventfd / eventfd_read / eventfd_write / close) */
